@@ -98,7 +98,7 @@ func genEditOn(r *simkit.Rand, p *simkit.Plan, actor string, id *int64, side str
 		p.Ops = append(p.Ops, simkit.Op{Actor: actor, Kind: "chmod", S: []string{side, path}})
 	case 5:
 		*id++
-		p.Ops = append(p.Ops, simkit.Op{Actor: actor, Kind: "edit", N: []int64{*id}, S: []string{side, path}})
+		p.Ops = append(p.Ops, simkit.Op{Actor: actor, Kind: "edit", N: []int64{*id, int64(r.Intn(3) / 2)}, S: []string{side, path}})
 	case 6:
 		p.Ops = append(p.Ops, simkit.Op{Actor: actor, Kind: "untracked", S: []string{side, path}})
 	case 7:
@@ -505,7 +505,7 @@ func execPoll(t *testing.T, plan *simkit.Plan) *simkit.Result {
 		ctx := context.Background()
 
 		var mu sync.Mutex
-		var known *core.Entry      // what the controller last learnt from Scan
+		var known *core.Entry // what the controller last learnt from Scan
 		var lastTransition []*core.Change
 		var lastResults []*core.Entry
 		pollReturns := 0
@@ -770,4 +770,3 @@ func execPoll(t *testing.T, plan *simkit.Plan) *simkit.Result {
 
 var _ = fmt.Sprint
 var _ = sort.Strings
-
